@@ -2,6 +2,7 @@ package vc
 
 import (
 	"fmt"
+	"go/ast"
 	"go/constant"
 	"go/token"
 	"go/types"
@@ -75,14 +76,14 @@ func typesPkgOf(fn *ssa.Function) *types.Package {
 }
 
 // evalClause evaluates a boolean clause at a loop header / back edge (locals visible).
-func (e *Engine) evalClause(f *frame, cl *Clause, st *State, override map[ssa.Value]Val) *smt.Term {
-	ctx := &evalCtx{e: e, f: f, st: st, old: f.entry, override: override, bound: map[string]EV{}, pkg: typesPkgOf(f.fn)}
+func (e *Engine) evalClause(f *frame, cl *Clause, st *State, override map[ssa.Value]Val, at *ssa.BasicBlock) *smt.Term {
+	ctx := &evalCtx{e: e, f: f, st: st, old: f.entry, override: override, bound: map[string]EV{}, pkg: typesPkgOf(f.fn), at: at}
 	e.bindLets(ctx)
 	return ctx.boolean(cl.Expr, cl.Text)
 }
 
-func (e *Engine) evalMeasure(f *frame, cl *Clause, st *State, override map[ssa.Value]Val) *smt.Term {
-	ctx := &evalCtx{e: e, f: f, st: st, old: f.entry, override: override, bound: map[string]EV{}, pkg: typesPkgOf(f.fn)}
+func (e *Engine) evalMeasure(f *frame, cl *Clause, st *State, override map[ssa.Value]Val, at *ssa.BasicBlock) *smt.Term {
+	ctx := &evalCtx{e: e, f: f, st: st, old: f.entry, override: override, bound: map[string]EV{}, pkg: typesPkgOf(f.fn), at: at}
 	e.bindLets(ctx)
 	ev := ctx.eval(cl.Expr)
 	return ctx.toMath(ev)
@@ -200,7 +201,9 @@ func (c *evalCtx) eval(x Expr) EV {
 		bv := cx.BoundVar(n.Var, sorts[0])
 		saved, had := c.bound[n.Var]
 		c.bound[n.Var] = EV{V: Val{Typ: t, Terms: []*smt.Term{bv}}}
+		e.noAssume++
 		body := c.boolean(n.Body, "quantifier body")
+		e.noAssume--
 		if had {
 			c.bound[n.Var] = saved
 		} else {
@@ -457,7 +460,9 @@ func (c *evalCtx) object(obj types.Object) EV {
 	return EV{}
 }
 
-// local resolves a source-level local variable name at the current program point.
+// local resolves a source-level local variable name at a loop header (c.at): the header's phi of that name,
+// else the value the name had before the loop (last definition dominating the header), else an address-taken
+// local's current content.
 func (c *evalCtx) local(name string) (Val, bool) {
 	f := c.f
 	get := func(v ssa.Value) Val {
@@ -468,26 +473,38 @@ func (c *evalCtx) local(name string) (Val, bool) {
 		}
 		return f.get(v)
 	}
+	if c.at != nil {
+		for _, in := range c.at.Instrs {
+			phi, ok := in.(*ssa.Phi)
+			if !ok {
+				break
+			}
+			if phi.Comment == name {
+				return get(phi), true
+			}
+		}
+	}
 	var best ssa.Value
 	for _, b := range f.fn.Blocks {
 		for _, in := range b.Instrs {
 			switch x := in.(type) {
-			case *ssa.Phi:
-				if x.Comment == name {
-					if _, done := f.vals[x]; done {
-						best = x
-					}
-				}
 			case *ssa.DebugRef:
-				if id, ok := x.Expr.(interface{ String() string }); ok && id.String() == name && !x.IsAddr {
-					if _, done := f.vals[x.X]; done {
-						if _, isPhi := x.X.(*ssa.Phi); isPhi && best != nil {
+				if id, ok := x.Expr.(*ast.Ident); ok && id.Name == name && !x.IsAddr {
+					if _, done := f.vals[x.X]; !done {
+						if _, isConst := x.X.(*ssa.Const); !isConst {
 							continue
 						}
-						best = x.X
-					} else if _, isConst := x.X.(*ssa.Const); isConst && best == nil {
-						best = x.X
 					}
+					if c.at != nil {
+						// must be defined before the loop
+						if def, isInst := x.X.(ssa.Instruction); isInst && !(def.Block().Dominates(c.at) && def.Block() != c.at) {
+							continue
+						}
+						if !(b.Dominates(c.at) && b != c.at) {
+							continue
+						}
+					}
+					best = x.X
 				}
 			case *ssa.Alloc:
 				if x.Comment == name {
@@ -501,7 +518,6 @@ func (c *evalCtx) local(name string) (Val, bool) {
 	if best == nil {
 		return Val{}, false
 	}
-	// prefer the phi of the innermost enclosing header if several phis share the name
 	return get(best), true
 }
 
@@ -757,6 +773,14 @@ func (c *evalCtx) callExpr(n *ECall) EV {
 			a := c.eval(n.Args[0])
 			off := cx.Extend(c.toMath(c.eval(n.Args[1])), 64, true)
 			return EV{V: Val{Typ: types.Typ[types.Uint8], Terms: []*smt.Term{cx.Select(e.ghostGet(c.st, pData, streamKey(a.V)), off)}}}
+		case "has":
+			m := c.eval(n.Args[0])
+			k := c.eval(n.Args[1])
+			mt := types.Unalias(m.V.Typ).Underlying().(*types.Map)
+			if k.Lit != nil {
+				k = c.litTo(k.Lit, mt.Key(), false)
+			}
+			return boolEV(e.mapHas(c.st, m.V, k.V.Terms[0]))
 		case "isnil":
 			a := c.eval(n.Args[0])
 			return boolEV(cx.Eq(a.V.Terms[0], cx.IntLit(0)))
